@@ -82,6 +82,19 @@ def derivative_checks(S, smp, name, obs, spec_fail, desc):
                                   {**desc, "traces": tr, "nelec": list(ne)}))
     except Exception as ex:
         spec_fail.append((name, "reverse-mode density matrix can be evaluated as the driver does", {**desc, "error": repr(ex)[:300]}))
+    # (3') the state handed over by the driver carries overlaps that are stale after its reconfiguration: the primal of
+    # every AD entry point must not depend on them (the plain sampler recomputes them on entry)
+    try:
+        pds = systems.copy_prop_data(S["prop_data"])
+        ovs = np.array(pds["overlaps"])
+        pds["overlaps"] = jnp.array(ovs * (0.3 + 0.4j) + 0.1 * np.arange(1, len(ovs) + 1))
+        es = float(np.real(f(0.0, obs, pds)[0]))
+        n += 1
+        if abs(es - e0) > 1e-9 * max(1.0, abs(e0)):
+            spec_fail.append((name, "primal energy equals the plain (non-AD) sampler at zero coupling for the state the driver hands over (stale overlap cache)",
+                              {**desc, "with_consistent_cache": e0, "with_stale_cache": es}))
+    except Exception as ex:
+        spec_fail.append((name, "AD entry point runs on a state with a stale overlap cache", {**desc, "error": repr(ex)[:300]}))
     # (3) primal vs plain sampler
     try:
         ep, _ = smp.propagate_phaseless(S["ham"], dict(S["ham_data"]), S["prop"], systems.copy_prop_data(S["prop_data"]), S["trial"], dict(S["wave_data"]))
